@@ -1,0 +1,65 @@
+//! Verification hooks (compiled only with `--cfg mimium_verif`).
+//!
+//! Purely additive instrumentation used by the external verification harness:
+//! a thread-local trace of state-storage accesses of both runtimes, and bounds
+//! checks that turn an out-of-bounds access of the unchecked runtime paths into a
+//! panic carrying a recognisable message (instead of undefined behaviour).
+
+use std::cell::RefCell;
+
+#[derive(Clone, Copy, Debug, PartialEq, Eq)]
+pub enum Kind {
+    Get,
+    Set,
+    Mem,
+    Delay,
+    Push,
+    Pop,
+}
+
+#[derive(Clone, Copy, Debug, PartialEq, Eq)]
+pub struct StateAccess {
+    /// 0 = bytecode VM, 1 = WASM host
+    pub backend: u8,
+    pub kind: Kind,
+    /// 0 = global (dsp) storage, otherwise an identifier of the closure that owns the storage
+    pub storage: u64,
+    /// cursor before the operation
+    pub pos: usize,
+    /// words accessed (Get/Set/Mem/Delay incl. the two index words) or cursor delta (Push/Pop)
+    pub size: usize,
+    /// length of the storage before the operation
+    pub len: usize,
+}
+
+thread_local! {
+    static TRACE: RefCell<Option<Vec<StateAccess>>> = const { RefCell::new(None) };
+}
+
+pub const TRACE_CAP: usize = 200_000;
+pub const OOB_MSG: &str = "mimium_verif: out-of-bounds";
+
+/// Start recording on this thread (clears any previous trace).
+pub fn trace_start() {
+    TRACE.with(|t| *t.borrow_mut() = Some(Vec::new()));
+}
+/// Stop recording and return the trace.
+pub fn trace_take() -> Vec<StateAccess> {
+    TRACE.with(|t| t.borrow_mut().take().unwrap_or_default())
+}
+#[inline]
+pub fn record(a: StateAccess) {
+    TRACE.with(|t| {
+        if let Some(v) = t.borrow_mut().as_mut() {
+            if v.len() < TRACE_CAP {
+                v.push(a);
+            }
+        }
+    });
+}
+#[inline]
+pub fn check(ok: bool, what: &str) {
+    if !ok {
+        panic!("{OOB_MSG}: {what}");
+    }
+}
